@@ -36,7 +36,7 @@ Proof. repeat split; reflexivity. Qed.
 Example ex_cat : torch_cat_shape [[2; 3]; [2; 1]] (-1) = Some [2; 4] /\ aten_cat [[2; 3]; [2; 1]] (-1) = Some [2; 4].
 Proof. split; reflexivity. Qed.
 Example ex_sum : torch_reduce_shape [2; 3; 4] (Some [0; -1]) true = Some [1; 3; 1] /\ aten_sum_dim [2; 3; 4] (Some [0; -1]) true = Some [1; 3; 1]
-  /\ aten_sum_dim [2; 3; 4] (Some []) false = Some [] /\ aten_amax [2; 3; 4] [-2] false = Some [2; 4].
+  /\ aten_sum_dim [2; 3; 4] (Some []) false = Some [] /\ aten_amax [2; 3; 4] (Some [-2]) false = Some [2; 4] /\ aten_amax [2; 3; 4] None true = Some [1; 1; 1].
 Proof. repeat split; reflexivity. Qed.
 
 Example ex_select : aten_select 3 (-2) [10; 20; 30] (-1) = Some (1, 30) /\ torch_select [10; 20; 30] (-1) = Some 30.
